@@ -496,7 +496,71 @@ def standin_device_specs(tier, seed):
                 cases=cases, distinct=cases, failures=len(fails), exhaustive=False, _fails=fails[:3])
 standin_device_specs.prop = "C16"
 
-STANDINS = [standin_bits_native, standin_circuit_roundtrip, standin_results_roundtrip, standin_sweeps_roundtrip, standin_run_contexts, standin_conditions_roundtrip, standin_device_specs]
+def standin_ndarrays(tier, seed):
+    """array messages (the arguments of internal gates and tags travel as these): every dtype x shapes of 1-3 dimensions x memory layouts (row-major,
+    column-major, a transposed view, a strided slice, a reversed view): the decoded array has the shape, dtype and entries of the one given, through
+    serialized bytes; the same for InternalGate / InternalTag carrying such arrays"""
+    import cirq
+    import cirq_google
+    from cirq_google.api.v2 import ndarrays
+
+    rng = np.random.RandomState(seed + 17)
+    F_ = "cirq-google/cirq_google/api/v2/ndarrays.py:to_*_array/from_*_array"
+    kinds = [("float64", np.float64), ("float32", np.float32), ("float16", np.float16), ("int64", np.int64), ("int32", np.int32), ("int16", np.int16), ("int8", np.int8), ("uint8", np.uint8),
+             ("complex128", np.complex128), ("complex64", np.complex64), ("bitarray", np.bool_)]
+    cases, fails = 0, []
+    for name, dt in kinds:
+        to_f = getattr(ndarrays, "to_bitarray" if name == "bitarray" else f"to_{name}_array", None)
+        from_f = getattr(ndarrays, "from_bitarray" if name == "bitarray" else f"from_{name}_array", None)
+        if to_f is None or from_f is None:
+            continue
+        for shape in ((5,), (3, 4), (2, 3, 4), (4, 4), (1, 7), (9, 2)):
+            base = rng.randint(0, 2, size=shape).astype(dt) if name == "bitarray" else (rng.randint(-100, 100, size=shape) + (1j * rng.randint(-9, 9, size=shape) if "complex" in name else 0)).astype(dt) if name != "uint8" else rng.randint(0, 255, size=shape).astype(dt)
+            layouts = {"row-major": np.ascontiguousarray(base), "column-major": np.asfortranarray(base), "transposed view": np.ascontiguousarray(base.T).T,
+                       "strided slice": np.repeat(base, 2, axis=-1)[..., ::2], "reversed view": base[::-1]}
+            for lname, arr in layouts.items():
+                cases += 1
+                want = np.array(arr)
+                try:
+                    msg = to_f(arr)
+                    msg2 = type(msg)()
+                    msg2.ParseFromString(msg.SerializeToString())
+                    back = from_f(msg2)
+                except Exception as ex:
+                    fails.append(dict(args=dict(dtype=name, shape=list(shape), layout=lname), failed="ndarray-roundtrip-raised", clause=f"{ex!r}"))
+                    continue
+                if back.shape != want.shape or not np.array_equal(back, want) or (name != "bitarray" and back.dtype != want.dtype):
+                    fails.append(dict(args=dict(dtype=name, shape=list(shape), layout=lname, given=want.tolist(), decoded=np.asarray(back).tolist()), failed="ndarray-roundtrip",
+                                      clause=f"a {name} array of shape {list(shape)} given as a {lname} decodes with other entries, shape or dtype"))
+    # internal gates / tags carrying arrays of each layout
+    m = rng.randint(-5, 5, size=(3, 4)).astype(np.float64)
+    for lname, arr in (("row-major", m), ("column-major", np.asfortranarray(m)), ("transposed view", np.ascontiguousarray(m.T).T)):
+        cases += 1
+        try:
+            from cirq_google.serialization import arg_func_langs as afl
+
+            g = cirq_google.InternalGate("G", "mod", 1, w=arr)
+            msg = afl.internal_gate_arg_to_proto(g) if hasattr(afl, "internal_gate_arg_to_proto") else None
+            if msg is not None:
+                back = afl.internal_gate_from_proto(msg)
+                if not np.array_equal(np.asarray(back.gate_args["w"]), m):
+                    fails.append(dict(args=dict(layout=lname, given=m.tolist(), decoded=np.asarray(back.gate_args["w"]).tolist()), failed="ndarray-roundtrip", clause=f"an InternalGate carrying a {lname} array comes back with other entries"))
+            t = cirq_google.InternalTag(name="T", package="p", w=arr)
+            tb = cirq_google.InternalTag.from_proto(t.to_proto())
+            if not np.array_equal(np.asarray(tb.tag_args["w"]), m):
+                fails.append(dict(args=dict(layout=lname, given=m.tolist(), decoded=np.asarray(tb.tag_args["w"]).tolist()), failed="ndarray-roundtrip", clause=f"an InternalTag carrying a {lname} array comes back with other entries"))
+        except Exception as ex:
+            fails.append(dict(args=dict(layout=lname), failed="ndarray-roundtrip-raised", clause=f"{ex!r}"))
+    seen, uniq = set(), []
+    for f_ in fails:
+        key = (f_["failed"], f_["args"].get("dtype"), f_["args"].get("layout"))
+        if key not in seen:
+            seen.add(key)
+            uniq.append(f_)
+    return dict(function=F_, case="ndarrays", bound="11 array message kinds x 6 shapes x 5 memory layouts; InternalGate / InternalTag with a 3x4 array in 3 layouts", cases=cases, distinct=cases, failures=len(uniq), exhaustive=False, _fails=uniq[:4])
+standin_ndarrays.prop = "C16"
+
+STANDINS = [standin_bits_native, standin_circuit_roundtrip, standin_results_roundtrip, standin_sweeps_roundtrip, standin_run_contexts, standin_conditions_roundtrip, standin_device_specs, standin_ndarrays]
 
 NOT_COVERED = [
     "circuit/sweep/result/device protos themselves (protobuf reflection, float32 rounding): bounded round trips only; device specifications not exercised",
